@@ -295,10 +295,15 @@ func TestC14aErrorClasses(t *testing.T) {
 				h.SettleCall(call)
 			}
 		}
+		brokenWhileOpen := false
 		if !h.IsDone(call) {
 			// nothing else resolves it: the connection goes
+			// (on an overloaded machine this also meets a call whose goroutine
+			// has not got going yet: the connection is no longer a healthy
+			// one for it, see the online/no-fault rule below)
 			if cur := h.Current(); cur != nil {
 				cur.Break(false)
+				brokenWhileOpen = true
 			}
 			for i := 0; i < 4 && !h.IsDone(call); i++ {
 				h.App.Step()
@@ -402,7 +407,10 @@ func TestC14aErrorClasses(t *testing.T) {
 			}
 		}
 		// online, no fault: an accepted publish goes out; its exchange reports no submission error
-		if state == "online" && placement == "none" && persisted && err == nil && quitKind != "x" {
+		if brokenWhileOpen && state == "online" && placement == "none" && persisted {
+			stats.For("C14").Label("online-no-fault-rule-skipped:the-harness-took-the-connection-before-the-call-returned", 1)
+		}
+		if state == "online" && placement == "none" && persisted && err == nil && quitKind != "x" && !brokenWhileOpen {
 			h.PollExchanges()
 			var errs []error
 			h.WithLock(func() { errs = append(errs, call.ExchErrs...) })
